@@ -67,9 +67,11 @@ def run_one(family, rng, idx, tier):
         import hashlib
         h = hashlib.sha256()
         bagsize = 0
-        for op in ops:
+        probed = stats.pop("_probed", [])
+        for k, op in enumerate(ops):
             h.update(repr(op).encode())
-            keys.add("m|" + h.hexdigest()[:16])
+            if k < len(probed) and probed[k]:
+                keys.add("m|" + h.hexdigest()[:16])
         out = {"viol": v, "stats": stats, "keys": sorted(keys)}
         if idx < 2:
             out["sample"] = {"ops": ops}
